@@ -208,6 +208,12 @@ def check_linear(rep, crate, cfg, rid='R01.c', only=None):
         m_ = _SEND_ERR.match(ty)
         if m_ and (crate.host_root(f), m_.group(1)) in FAILED_SEND:
             key = (crate.host_root(f), 'failed send of ' + m_.group(1))
+        if key not in table:
+            # the body was lifted out of the tabled function (a method of a private struct, an async helper): the row of the function it belongs to
+            hr_ = crate.host_root(f)
+            cands_ = [k2 for k2 in table if k2[1] == ty and (k2[0] == hr_ or k2[0].startswith(hr_ + '::')) and hr_ != _noidx(f.kpath)]
+            if len(cands_) == 1:
+                key = cands_[0]
         if f.blocks[bb].get('inl') and key not in table and re.search(r'(^|[<, (])[A-Z]\w*($|[>, )])', ty):
             # a drop inside a spliced generic helper names the helper's type parameters: match the rows of this function whose type has
             # the same shape with a concrete type in place of each parameter (`Option<T>` ~ `Option<<Op as Operation>::Output>`)
@@ -375,6 +381,22 @@ def check_entry_points(rep, core):
         oks = [bb for bb, i, s in rs.stmts('assign') if s['rv']['k'] == 'agg' and s['rv'].get('adt') == 'core::result::Result'
                and s['rv']['variant'] == 'Ok']
         ok = len(prs) == 1 and len(oks) >= 1 and all(rs.dominates(prs[0], b) for b in oks)
+        if not ok and not prs and not oks:
+            # `resolved.map(|()| self.process())`: the Ok the function returns is built by Result::map from the closure's result, and the
+            # closure is the settle
+            ret = origins(rs, {'l': 0, 'p': []})
+            maps = [o for o in ret if o.kind == 'call' and call_matches(o.term, ['core::result::Result::map'])]
+            if ret and len(maps) == len(ret):
+                ok = True
+                for o in maps:
+                    clos = [core.by_exact(x.stmt['rv']['def']) for x in origins(rs, o.term['args'][1]) if x.kind == 'agg' and x.stmt['rv'].get('ak') == 'closure']
+                    if len(clos) != 1 or clos[0] is None:
+                        ok = False
+                        continue
+                    g_ = clos[0]
+                    pc = [bb for bb, t in g_.calls('crux_core::core::Core::process')]
+                    ok = ok and len(pc) == 1 and not any(r_ in g_.reachable([0], removed_blocks=pc) for r_ in g_.return_blocks()) and \
+                        all(y.kind == 'call' and y.bb == pc[0] for y in origins(g_, {'l': 0, 'p': []}))
         rep.expect('R01.b', ok, 'resolve', 'the Ok return of Core::resolve is dominated by process()',
                    'Core::resolve can return Ok without settling through process()')
     from rules.props import c09
